@@ -548,6 +548,66 @@ def gen_casts(rng: Rng) -> tuple[GB, dict]:
     return gb, desc
 
 
+NARROW = {TensorProto.INT8: (-128, 127), TensorProto.UINT8: (0, 255), TensorProto.INT16: (-32768, 32767),
+          TensorProto.INT32: (-2**31, 2**31 - 1)}
+
+
+def gen_range_casts(rng: Rng) -> tuple[GB, dict]:
+    """Range(start, limit, delta) with constant operands → shape-only ops → Cast(narrow) → Cast(back): the
+    cast pass drops the narrowing round trip only when the statically proven value range fits. Triples
+    are drawn around the edge of the narrow type: last element exactly at, one step before and one step
+    past the bound; non-unit and negative steps; spans that are / are not multiples of the step; empty."""
+    wide = rng.choice([TensorProto.INT64, TensorProto.INT64, TensorProto.INT32])
+    narrow = rng.choice([t for t in NARROW if t != wide and not (wide == TensorProto.INT32 and t == TensorProto.INT32)])
+    lo, hi = NARROW[narrow]
+    np_w = np.int64 if wide == TensorProto.INT64 else np.int32
+    delta = rng.choice([1, 1, 2, 3, 5, 7, 9, -1, -2, -3, -7])
+    count = rng.choice([0, 1, 2, 3, 5, 8])
+    edge = hi if delta > 0 else lo
+    # last element = edge + off*|delta|-ish: off 0 → exactly fits, >0 → overflows, <0 → inside
+    off = rng.choice([-2, -1, 0, 0, 1, 1, 2])
+    last = edge + off * (1 if rng.chance(0.5) else abs(delta))
+    start = last - (max(count, 1) - 1) * delta
+    # exclusive limit: somewhere in (last, last + delta] resp. [last + delta, last)
+    extra = rng.randint(1, abs(delta))
+    limit = last + (extra if delta > 0 else -extra)
+    if count == 0:
+        limit = start - (1 if delta > 0 else -1) * rng.choice([0, 1, 3])
+    i32 = (-2**31, 2**31 - 1)
+    if wide == TensorProto.INT32 and not all(i32[0] <= v <= i32[1] for v in (start, limit, delta)):
+        wide, np_w = TensorProto.INT64, np.int64
+    gb = GB()
+    r = gb.node("Range", [gb.const(np.asarray(start, dtype=np_w)), gb.const(np.asarray(limit, dtype=np_w)),
+                          gb.const(np.asarray(delta, dtype=np_w))])
+    desc: dict[str, Any] = {"family": "range_casts", "start": start, "limit": limit, "delta": delta, "wide": wide,
+                            "narrow": narrow, "guards": [], "via": []}
+    cur = r
+    for _ in range(rng.choice([0, 0, 1, 2])):
+        op = rng.choice(["Identity", "Unsqueeze", "Reshape", "Transpose", "Flatten"])
+        if op == "Unsqueeze":
+            cur = gb.node("Unsqueeze", [cur, gb.const(np.asarray([0], dtype=np.int64))])
+            cur = gb.node("Squeeze", [cur, gb.const(np.asarray([0], dtype=np.int64))])
+        elif op == "Reshape":
+            cur = gb.node("Reshape", [cur, gb.const(np.asarray([-1], dtype=np.int64))])
+        elif op == "Transpose":
+            cur = gb.node("Transpose", [cur], perm=[0])
+        elif op == "Flatten":
+            cur = gb.node("Flatten", [cur], axis=0)
+            cur = gb.node("Reshape", [cur, gb.const(np.asarray([-1], dtype=np.int64))])
+        else:
+            cur = gb.node("Identity", [cur])
+        desc["via"].append(op)
+    c1 = gb.node("Cast", [cur], to=narrow)
+    c2 = gb.node("Cast", [c1], to=wide)
+    gb.out(c2)
+    true_last_fits = count == 0 or (lo <= min(start, last) and max(start, last) <= hi)
+    desc["guards"].append("values_fit" if true_last_fits else "values_overflow_narrow_type")
+    if rng.chance(0.15):
+        gb.out(c1)
+        desc["guards"].append("intermediate_is_output")
+    return gb, desc
+
+
 def gen_swish(rng: Rng) -> tuple[GB, dict]:
     gb = GB(opset=rng.choice([23, 24, 24]))
     x = gb.inp([2, 3])
@@ -704,7 +764,7 @@ def gen_misc(rng: Rng) -> tuple[GB, dict]:
 FAMILIES = [
     (gen_transpose_chain, 34), (gen_add_forest, 14), (gen_elem_dag, 12), (gen_reduce, 10),
     (gen_reshape, 14), (gen_identity_reshape, 3), (gen_casts, 8), (gen_swish, 3), (gen_dropout, 2),
-    (gen_reshape_empty, 3), (gen_misc, 12),
+    (gen_reshape_empty, 3), (gen_misc, 12), (gen_range_casts, 7),
 ]
 
 
